@@ -304,6 +304,13 @@ def systematic() -> list:
         out.append(sch)
     for kind in ("auth_err", "enc_err"):
         out.append([("ev", "start"), ("idle",)] + attempt_steps(kind) + [("idle",), ("tick",)] + attempt_steps("tcp_err") + [("idle",), ("tick",)] + attempt_steps("ok") + [("idle",)])
+    # a long outage: far more consecutive failures than any exponent the back-off formula was tried with
+    # (1.8^n leaves the range of a float at n = 1208): the manager keeps retrying every 60 s and recovers
+    sch = [("ev", "start"), ("idle",)]
+    for _ in range(1300):
+        sch += attempt_steps("resolve_err") + [("idle",), ("tick",)]
+    sch += attempt_steps("ok") + [("idle",), ("ev", "stop"), ("idle",)]
+    out.append(sch)
     # disturbances at every point of every two-attempt story
     dist = [("ev", "stop"), ("ev", "mdns", "ptr"), ("ev", "mdns", "a"), ("ev", "mdns", "other"), ("tick",), ("ev", "start")]
     for o1 in OUTCOMES:
